@@ -144,7 +144,42 @@ def _build_mask(case):
         m = m.astype(bool)
     elif case.get('dtype') == 'float':
         m = m.astype(float)
-    return m
+    elif case.get('dtype'):                  # uint8 / int8 / int16 / float32: how binary masks are stored in image files
+        m = m.astype(case['dtype'])
+    return _relayout(m, case.get('layout'))
+
+
+def _relayout(a, layout):
+    """the same array VALUES in another memory layout (the property speaks of voxels / columns, not of memory order)"""
+    if not layout or layout == 'C':
+        return a
+    if layout == 'F':                        # column-major, as image libraries return volumes
+        out = np.asfortranarray(a)
+    elif layout == 'strided':                # non-contiguous view into a larger buffer
+        big = np.zeros(tuple(2 * s + 1 for s in a.shape), dtype=a.dtype)
+        big[tuple(slice(1, None, 2) for _ in a.shape)] = a
+        out = big[tuple(slice(1, None, 2) for _ in a.shape)]
+    elif layout == 'reversed':               # negative strides
+        out = np.ascontiguousarray(a[tuple(slice(None, None, -1) for _ in a.shape)])[tuple(slice(None, None, -1) for _ in a.shape)]
+    else:
+        raise ValueError(layout)
+    assert out.shape == a.shape and np.array_equal(out, a)
+    return out
+
+
+def _typed_scalar(v, how):
+    """the same number as another scalar type"""
+    if not how or how == 'py':
+        return v
+    if how == 'int':
+        assert float(v).is_integer()
+        return int(v)
+    if how == 'float':
+        return float(v)
+    t = getattr(np, how)
+    out = t(v)
+    assert float(out) == float(v), 'value must be representable'
+    return out
 
 
 def _spec_cond_means(X, events):
@@ -176,22 +211,43 @@ def _spec_rdm_vector(X, events, method):
     return np.array(out, dtype=float)
 
 
-def _events(rs, kind, n_cond, reps):
-    """event vector: every one of n_cond conditions occurs, in shuffled order"""
+def _events(rs, kind, n_cond, reps, order='shuffled'):
+    """event vector: every one of n_cond conditions occurs, in shuffled order (or the stated `order`)"""
     if kind == 'int':
         labels = np.arange(n_cond)
     elif kind == 'int-gaps':            # includes labels >= 10 so that text order != numeric order
         labels = np.array([2, 10, 1, 33, 7, 100, 4, 21][:n_cond])
     elif kind == 'str':
         labels = np.array(['b', 'a', 'd', 'c', 'f', 'e', 'h', 'g'][:n_cond])
+    elif kind == 'int-neg':             # negative and positive run numbers / codes
+        labels = np.array([-3, 4, -20, 0, 11, -1, 7, -100][:n_cond])
+    elif kind == 'float':               # e.g. stimulus intensities
+        labels = np.array([0.5, -1.5, 10.0, 2.25, 0.0, 3.5, -0.25, 100.0][:n_cond])
+    elif kind == 'str-long':            # several characters, different lengths, one a prefix of another
+        labels = np.array(['face', 'house', 'body', 'face_inv', 'cat', 'chair', 'zebra', 'a'][:n_cond])
+    elif kind == 'int32':
+        labels = np.array([5, 3, 9, 1, 7, 2, 8, 0][:n_cond], dtype=np.int32)
     else:
         raise ValueError(kind)
+    assert len(labels) == n_cond, 'not that many labels of this kind'
     if isinstance(reps, int):
         counts = [reps] * n_cond
     else:                               # 'unbalanced'
         counts = [1 + (i % 3) for i in range(n_cond)]
     ev = np.repeat(labels, counts)
-    return ev[rs.permutation(len(ev))]
+    perm = rs.permutation(len(ev))      # drawn in every case: the other seeded inputs do not depend on `order`
+    if order == 'shuffled':
+        return ev[perm]
+    if order == 'blocked':              # all observations of a condition adjacent, conditions in the (unsorted) order above
+        return ev
+    if order == 'sorted':
+        return np.sort(ev)
+    if order == 'descending':           # first appearance is the reverse of the sorted order
+        return np.sort(ev)[::-1].copy()
+    if order == 'interleaved':          # b a d c b a d c ... (unbalanced: the longer conditions trail)
+        rounds = [labels[i] for r in range(max(counts)) for i in range(n_cond) if counts[i] > r]
+        return np.array(rounds, dtype=labels.dtype)
+    raise ValueError(order)
 
 
 # =====================================================================================================
@@ -203,12 +259,19 @@ def orc_neighbors(case):
     from rsatoolbox.util.searchlight import _get_searchlight_neighbors
     shape = tuple(case['shape'])
     radius = case['radius']
-    mask = np.full(shape, case.get('fill', 1), dtype=int)     # membership must not depend on the mask contents
+    # membership must not depend on the mask contents, nor on how the mask is stored
+    mask = _relayout(np.full(shape, case.get('fill', 1), dtype=case.get('mask_dtype', 'int')), case.get('layout'))
     centres = case.get('centres') or list(itertools.product(*[range(s) for s in shape]))
+    r_arg = _typed_scalar(radius, case.get('radius_as'))
+    held = []
     for c in centres:
         c = tuple(int(k) for k in c)
-        arg = c if case.get('centre_as', 'tuple') == 'tuple' else np.array(c)
-        got = _get_searchlight_neighbors(mask, arg, radius)
+        how = case.get('centre_as', 'tuple')
+        arg = {'tuple': c, 'array': np.array(c), 'list': list(c), 'np-tuple': tuple(np.int64(k) for k in c),
+               'int32': np.array(c, dtype=np.int32)}[how]
+        got = _get_searchlight_neighbors(mask, arg, r_arg)
+        if how == 'list' and arg != list(c) or how in ('array', 'int32') and not np.array_equal(arg, c):
+            return f'centre {c}: the centre argument was modified'
         if not (isinstance(got, tuple) and len(got) == 3 and len(got[0]) == len(got[1]) == len(got[2])):
             return f'centre {c}: result is not a tuple of three equally long coordinate lists: {got!r}'
         got_v = [(int(a), int(b), int(d)) for a, b, d in zip(*got)]
@@ -226,23 +289,16 @@ def orc_neighbors(case):
         # usable as an index into the volume (this is how get_volume_searchlight uses it)
         if len(got_v) and np.asarray(mask[got]).shape != (len(got_v),):
             return f'centre {c}: result does not index the volume voxel by voxel'
+        held.append((c, got, got_v))
+    # results held by the caller are not touched by the later calls
+    for c, got, got_v in held:
+        if [(int(a), int(b), int(d)) for a, b, d in zip(*got)] != got_v:
+            return f'shape {shape} radius {radius}: the searchlight returned for centre {c} changed while later centres were computed'
     return None
 
 
-@oracle('C19/volume-searchlight')
-def orc_volume(case):
-    """get_volume_searchlight(mask, radius, threshold): accepted centres and their neighbour lists"""
-    from rsatoolbox.util.searchlight import get_volume_searchlight
-    mask = _build_mask(case)
-    shape = tuple(mask.shape)
-    radius, thr = case['radius'], case['threshold']
-    keep = mask.copy()
-    want = _spec_volume(mask, radius, thr)
-    arg = mask.tolist() if case.get('as_list') else mask
-    with _quiet():
-        centers, neighbors = get_volume_searchlight(arg, radius=radius, threshold=thr)
-    if not np.array_equal(mask, keep):
-        return 'the mask was modified'
+def _volume_diff(shape, radius, thr, centers, neighbors, want):
+    """None if (centers, neighbors) are the accepted centres `want` {linear index: frozenset of linear indices}, else text"""
     centers = np.asarray(centers)
     if centers.ndim != 1 or (centers.size and not np.issubdtype(centers.dtype, np.integer)):
         return f'centres are not a 1-D integer array (shape {centers.shape}, dtype {centers.dtype})'
@@ -268,12 +324,77 @@ def orc_volume(case):
     return None
 
 
+@oracle('C19/volume-searchlight')
+def orc_volume(case):
+    """get_volume_searchlight(mask, radius, threshold): accepted centres and their neighbour lists.
+    Optional keys: dtype / layout / as_list / as_tuple (how the mask is stored and handed over), radius_as / threshold_as (scalar
+    type of the two numbers), repeat (the same call again: equal result, first result untouched)"""
+    from rsatoolbox.util.searchlight import get_volume_searchlight
+    mask = _build_mask(case)
+    shape = tuple(mask.shape)
+    radius, thr = case['radius'], case['threshold']
+    keep = mask.copy()
+    want = _spec_volume(mask, radius, thr)
+    arg = mask.tolist() if case.get('as_list') else mask
+    if case.get('as_tuple'):
+        arg = tuple(tuple(tuple(row) for row in plane) for plane in mask.tolist())
+    r_arg, t_arg = _typed_scalar(radius, case.get('radius_as')), _typed_scalar(thr, case.get('threshold_as'))
+    with _quiet():
+        centers, neighbors = get_volume_searchlight(arg, radius=r_arg, threshold=t_arg)
+    if not np.array_equal(mask, keep) or (case.get('as_list') and arg != keep.tolist()):
+        return 'the mask was modified'
+    res = _volume_diff(shape, radius, thr, centers, neighbors, want)
+    if res:
+        return res
+    if case.get('repeat'):
+        held_c = np.array(centers).copy()
+        held_n = [np.array(n).copy() for n in neighbors]
+        with _quiet():
+            c2, n2 = get_volume_searchlight(arg, radius=r_arg, threshold=t_arg)
+        if not np.array_equal(np.asarray(centers), held_c) or len(neighbors) != len(held_n) or \
+                any(not np.array_equal(np.asarray(x), y) for x, y in zip(neighbors, held_n)):
+            return 'the result of the first call changed while the same call ran again'
+        if not np.array_equal(np.asarray(c2), held_c) or len(n2) != len(held_n) or \
+                any(not np.array_equal(np.asarray(x), y) for x, y in zip(n2, held_n)):
+            return 'the same call on the same mask gave a different result the second time'
+    return None
+
+
+@oracle('C19/volume-sequence')
+def orc_volume_sequence(case):
+    """several get_volume_searchlight calls in one process (same volume shape, different mask contents / radii / thresholds, some
+    repeated): every result -- looked at only AFTER all calls were made -- is the one of ITS mask, radius and threshold, the
+    results held from earlier calls did not change, and equal calls gave equal results"""
+    from rsatoolbox.util.searchlight import get_volume_searchlight
+    shape = tuple(case['shape'])
+    held = []
+    for k, step in enumerate(case['steps']):
+        sub = dict(shape=list(shape), **step)
+        mask = _build_mask(sub)
+        with _quiet():
+            centers, neighbors = get_volume_searchlight(mask, radius=step['radius'], threshold=step['threshold'])
+        held.append((sub, mask.copy(), centers, neighbors, _snapshot(np.asarray(centers)), [_snapshot(np.asarray(n)) for n in neighbors]))
+    for k, (sub, mask, centers, neighbors, snap_c, snap_n) in enumerate(held):
+        if not np.array_equal(np.asarray(centers), snap_c) or len(neighbors) != len(snap_n) or \
+                any(not np.array_equal(np.asarray(x), y) for x, y in zip(neighbors, snap_n)):
+            return f'the result returned by call #{k} changed while later calls ran'
+        res = _volume_diff(shape, sub['radius'], sub['threshold'], centers, neighbors, _spec_volume(mask, sub['radius'], sub['threshold']))
+        if res:
+            return f'call #{k} of {len(held)} (after the calls before it): {res}'
+    for k in range(len(held)):
+        for j in range(k):
+            if held[j][0] == held[k][0]:
+                if not np.array_equal(held[j][4], held[k][4]) or any(not np.array_equal(x, y) for x, y in zip(held[j][5], held[k][5])):
+                    return f'calls #{j} and #{k} had equal arguments but returned different results'
+    return None
+
+
 def _rdm_inputs(case):
     rs = np.random.RandomState(case['seed'])
     n_centers = case['n_centers']
     n_vox = case.get('n_vox') or max(30, n_centers + 13)
     method = case['method']
-    ev = _events(rs, case.get('events', 'int'), case.get('n_cond', 3), case.get('reps', 2))
+    ev = _events(rs, case.get('events', 'int'), case.get('n_cond', 3), case.get('reps', 2), case.get('event_order', 'shuffled'))
     n_obs = len(ev)
     labels = sorted(set(ev.tolist()))
     pattern = rs.randn(len(labels), n_vox)
@@ -287,6 +408,9 @@ def _rdm_inputs(case):
         data = data.astype(dt)
     elif dt == 'float32':
         data = (data + 200.0).astype(np.float32)
+    if case.get('scale'):                # the same recording in other units (volts vs. femto-tesla, raw scanner units ...)
+        data = data * float(case['scale'])
+    data = _relayout(data, case.get('layout'))
     order = case.get('centre_order', 'sorted')
     centers = rs.choice(n_vox, size=n_centers, replace=False)
     if order == 'sorted':
@@ -297,22 +421,86 @@ def _rdm_inputs(case):
         k = rs.randint(lo, hi + 1)
         others = rs.choice(n_vox, size=k, replace=False)
         nb = np.concatenate([[c], others[others != c]])[:max(k, 1)]
-        neighbors.append(nb if case.get('nb_as', 'array') == 'array' else [int(v) for v in nb])
+        how = case.get('nb_as', 'array')
+        if how in ('array', '2d'):
+            neighbors.append(nb)
+        elif how == 'list':
+            neighbors.append([int(v) for v in nb])
+        elif how == 'tuple':
+            neighbors.append(tuple(int(v) for v in nb))
+        else:                            # 'int32' / 'uint16' / 'intp': index arrays of another integer type
+            neighbors.append(nb.astype(how))
+    if case.get('nb_as') == '2d':        # equally large searchlights handed over as ONE centres x voxels index matrix
+        neighbors = np.array(neighbors)
+        assert neighbors.ndim == 2
+    elif case.get('nb_outer') == 'tuple':
+        neighbors = tuple(neighbors)
+    how = case.get('centres_as')
+    if how == 'list':
+        centers = [int(c) for c in centers]
+    elif how == 'tuple':
+        centers = tuple(int(c) for c in centers)
+    elif how:
+        centers = centers.astype(how)
+    how = case.get('events_as')
+    if how == 'list':
+        ev = ev.tolist()
+    elif how == 'tuple':
+        ev = tuple(ev.tolist())
+    elif how == 'object':
+        ev = ev.astype(object)
+    if case.get('data_as') == 'list':
+        data = data.tolist()
     return data, centers, neighbors, ev
+
+
+def _snapshot(x):
+    """deep value copy of an argument (nested lists / tuples / arrays) for the inputs-unchanged clause"""
+    if isinstance(x, np.ndarray):
+        return x.copy()
+    if isinstance(x, (list, tuple)):
+        return type(x)(_snapshot(v) for v in x)
+    return x
+
+
+def _same(x, y):
+    """same container types, same element types / dtypes, same values"""
+    if type(x) is not type(y):
+        return False
+    if isinstance(x, np.ndarray):
+        return x.dtype == y.dtype and x.shape == y.shape and bool(np.all(x == y))
+    if isinstance(x, (list, tuple)):
+        return len(x) == len(y) and all(_same(a, b) for a, b in zip(x, y))
+    return x == y
+
+
+def _rclose(a, b, tol):
+    """relative to the largest expected entry WITHOUT a floor at 1 (for data in extreme units)"""
+    a, b = np.asarray(a, dtype=float), np.asarray(b, dtype=float)
+    if a.shape != b.shape or not np.all(np.isfinite(a)) or not np.all(np.isfinite(b)):
+        return False
+    if b.size == 0:
+        return True
+    return bool(np.max(np.abs(a - b)) <= tol * float(np.max(np.abs(b))))
 
 
 @oracle('C19/searchlight-rdms')
 def orc_sl_rdms(case):
-    """get_searchlight_RDMs: row i == RDM computed directly from data[:, neighbors[i]] with the events as conditions"""
+    """get_searchlight_RDMs: row i == RDM computed directly from data[:, neighbors[i]] with the events as conditions.
+    Optional keys: scale / layout / data_as (units, memory layout, nested list of the data), centres_as / nb_as / nb_outer /
+    events_as (container and index types), event_order, repeat (the same call again gives the same values and leaves the
+    result of the first call alone)"""
     from rsatoolbox.util.searchlight import get_searchlight_RDMs
     data, centers, neighbors, ev = _rdm_inputs(case)
     method = case['method']
     n_centers = len(centers)
-    keep = data.copy()
+    keep = _snapshot((data, centers, neighbors, ev))
     with _quiet():
         sl = get_searchlight_RDMs(data, centers, neighbors, ev, method=method, verbose=False)
-    if not np.array_equal(data, keep):
-        return 'data_2d was modified'
+    for name, now, before in zip(('data_2d', 'centers', 'neighbors', 'events'), (data, centers, neighbors, ev), keep):
+        if not _same(now, before):
+            return f'{name} was modified by the call'
+    data, centers, ev = np.asarray(data), np.asarray(centers), np.asarray(ev)
     got = np.asarray(sl.dissimilarities)
     n_cond = len(set(ev.tolist()))
     if sl.n_rdm != n_centers or got.shape != (n_centers, n_cond * (n_cond - 1) // 2):
@@ -324,22 +512,43 @@ def orc_sl_rdms(case):
         return f"rdm_descriptors['voxel_index'] is not the centre vector in the given order (first differing positions {bad})"
     if sl.dissimilarity_measure != method:
         return f'dissimilarity_measure {sl.dissimilarity_measure!r}, expected {method!r}'
+    if case.get('scale'):
+        def cl(a, b):
+            return _rclose(a, b, 1e-8)
+    else:
+        def cl(a, b):
+            return close(a, b, 1e-8)
     bad = []
     first = None
     for i in range(n_centers):
         want = _spec_rdm_vector(data[:, np.asarray(neighbors[i], dtype=int)], ev, method)
-        if not close(got[i], want, 1e-8):
+        if not cl(got[i], want):
             bad.append(i)
             if first is None:
                 first = (i, want)
     if bad:
         i, want = first
         same_as = [j for j in range(n_centers)
-                   if j != i and close(got[i], _spec_rdm_vector(data[:, np.asarray(neighbors[j], dtype=int)], ev, method), 1e-8)][:3]
+                   if j != i and cl(got[i], _spec_rdm_vector(data[:, np.asarray(neighbors[j], dtype=int)], ev, method))][:3]
         hint = f'; it is the RDM of centre(s) #{same_as}' if same_as else ('; it is all zero' if not np.any(got[i]) else '')
+        fmt = (lambda v: [float('%.6g' % x) for x in v[:3]]) if case.get('scale') else (lambda v: np.round(v[:3], 6).tolist())
         return (f'{n_centers} centres, method {method}: {len(bad)} RDM(s) differ from the direct computation, positions '
-                f'{bad[:6]}{"..." if len(bad) > 6 else ""}; e.g. centre #{i} (voxel {int(centers[i])}) got {np.round(got[i][:3], 6).tolist()} '
-                f'expected {np.round(want[:3], 6).tolist()}{hint}')
+                f'{bad[:6]}{"..." if len(bad) > 6 else ""}; e.g. centre #{i} (voxel {int(centers[i])}) got {fmt(got[i])} '
+                f'expected {fmt(want)}{hint}')
+    if case.get('repeat'):
+        held = got.copy()
+        held_vox = vox.copy()
+        with _quiet():
+            sl2 = get_searchlight_RDMs(keep[0], keep[1], keep[2], keep[3], method=method, verbose=False)
+        if sl2 is sl:
+            return 'the second call returned the very object of the first call'
+        if not np.array_equal(np.asarray(sl.dissimilarities), held) or \
+                not np.array_equal(np.asarray(sl.rdm_descriptors['voxel_index']), held_vox):
+            return 'the result of the first call changed while the same call ran again'
+        if not np.array_equal(np.asarray(sl2.dissimilarities), held) or \
+                not np.array_equal(np.asarray(sl2.rdm_descriptors['voxel_index']), held_vox):
+            k = int(np.argmax(np.any(np.asarray(sl2.dissimilarities) != held, axis=1))) if np.asarray(sl2.dissimilarities).shape == held.shape else '?'
+            return f'the same call on equal inputs gave a different result the second time (first differing centre #{k})'
     return None
 
 
